@@ -276,6 +276,10 @@ let run_case (x : sx) : Stdlib.String.t =
                  | OErr e -> render_rerr e
                  | OPanic s -> "panic:" ^ hexc s in
                Buffer.add_string b (Printf.sprintf "\tR%d=%s" i r);
+               (let sr = spec_doc regex_match t doc in
+                let srend = if sr = [] then "fail" else "ok:[" ^ Stdlib.String.concat "," (List.map render_res sr) ^ "]" in
+                let mrend = match o with OOk _ -> r | OErr _ -> "fail" | OPanic _ -> r in
+                if srend <> mrend then Buffer.add_string b (Printf.sprintf "\tS%d=%s" i srend));
                Buffer.add_string b (Printf.sprintf "\tC%d=%s" i (Stdlib.String.concat ";" (List.map render_call st'.calls)));
                (match o with
                 | OOk rs when cfg.cfg_accessor ->
